@@ -179,3 +179,10 @@ def probe_kf05(run):
     r = np.asarray(flox.groupby_reduce(np.array([1.0, np.nan, 3.0, 2.0]), np.array([0, 0, 1, 1]), func="max", engine="numba")[0])
     if not np.isnan(r[0]):
         run.known("KF05-numba-minmax-ignores-nan", describe("KF05-numba-minmax-ignores-nan"))
+
+
+def _nd_kf03(info):
+    return info.get("engine") == "numba" and info.get("func") in ("any", "all") and "TypingError" in str(info.get("exc", ""))
+
+
+ND_PREDICATES["KF03-numba-anyall-float-fill"] = _nd_kf03
